@@ -625,9 +625,9 @@ private:
     auto target = std::make_unique<T_CopyAndVerifyRangeEl[]>(count);
 
     for (size_t i = 0; i < count; i++) {
-      auto p_src_i_tainted = &(impl()[i]);
-      auto p_src_i = p_src_i_tainted.get_raw_value();
-      detail::convert_type_fundamental_or_array(target[i], *p_src_i);
+      // element i as stored in sandbox memory (sandbox ABI), converted to the
+      // application's representation
+      target[i] = impl()[i].get_raw_value();
     }
 
     return target;
